@@ -388,3 +388,7 @@ M("C03", "block-not-cleared-after-flush", PROG, "                current_block_a
 M("C07", "db-returns-inside-loop", CG, "        code.append(ByteNode(ExpressionNode(expr, resolver, file_info)))\n    return code", "        code.append(ByteNode(ExpressionNode(expr, resolver, file_info)))\n        return code", "C07.R3")
 M("C06", "redefinition-keeps-old-value", SYM, "                logger.warning(f\"Symbol already defined ({symbol})\")\n            self.symbols[symbol] = value\n", "                logger.warning(f\"Symbol already defined ({symbol})\")\n            else:\n                self.symbols[symbol] = value\n", "C06.R6")
 M("C18", "joker-lower-case-only", "script/__init__.py", 'joker_regex = re.compile(r"^\\[0x(?P<byte>[0-9a-fA-F]+)]")', 'joker_regex = re.compile(r"^\\[0x(?P<byte>[0-9a-f]+)]")', "C18.R3")
+M("C01", "implied-instruction-not-appended", CG, "        code.append(OpcodeNode(opcode, addressing_mode=mode, file_info=file_info, resolver=resolver))\n", "        pass\n", "C01.R7")
+M("C13", "magic-check-inverted", NODES, 'if ips_file.read(5) != b"PATCH":', 'if ips_file.read(5) == b"PATCH":', "C13.R2")
+M("C13", "delta-guard-inverted", NODES, "                if self.delta is not None:\n                    block_addr += self.delta", "                if self.delta is None:\n                    block_addr += self.delta", "C13.R3")
+M("C17", "empty-lines-not-counted", "a816/parse/scanner.py", "if self.line_offset <= self.pos:", "if self.line_offset < self.pos:", "C17.R3")
